@@ -102,6 +102,8 @@ package storage
 //@ -- NFresh: the number of snapshots this call credits: on a re-submission of the checkpointed round (round == off) those not yet recorded,
 //@ -- on the next round (round == off + 1) all of them
 //@ spec NFresh(ss []*common.SnapshotWork, v mathint, round mathint) mathint = round == OffOf(v) ? CountFresh(ss, v, len(ss)) : len(ss)
+//@ -- IsFreshIdx(ss, v, round, i): snapshot i is credited by this call
+//@ spec IsFreshIdx(ss []*common.SnapshotWork, v mathint, round mathint, i int) bool = 0 <= i && i < len(ss) && (round != OffOf(v) || !Seen(v, ss[i].Hash))
 //@ spec SignersOK(ss []*common.SnapshotWork) bool = forall i int :: {ss[i]} 0 <= i && i < len(ss) ==> len(ss[i].Signers) > 0
 //@ spec OneDay(ss []*common.SnapshotWork) bool = forall i int :: {ss[i]} 0 <= i && i < len(ss) ==> DayOf(ss[i].Timestamp) == DayOf(ss[0].Timestamp)
 
@@ -129,20 +131,28 @@ package storage
 //@   ensures [no-credit] !credit || NFresh(snapshots, old(CkVal(*txn, nodeId)), round) == 0 ==> forall k mathint :: {badger.kvget(*txn, k)} keykind(k) == 15 || keykind(k) == 16 ==> badger.kvget(*txn, k) == old(badger.kvget(*txn, k))
 //@   ensures [lead] err == nil && credit && SignersOK(snapshots) && OffOf(old(CkVal(*txn, nodeId))) <= round && NFresh(snapshots, old(CkVal(*txn, nodeId)), round) > 0 ==>
 //@       Cnt(*txn, LeadKeyId(kvval(nodeId), DayOf(snapshots[0].Timestamp))) == old(Cnt(*txn, LeadKeyId(kvval(nodeId), DayOf(snapshots[0].Timestamp)))) + NFresh(snapshots, old(CkVal(*txn, nodeId)), round)
+//@   ensures [sign-only-fresh] err == nil ==> forall k mathint :: {badger.kvget(*txn, k)} keykind(k) == 15 && badger.kvget(*txn, k) != old(badger.kvget(*txn, k)) ==>
+//@       keynum(k) == DayOf(snapshots[0].Timestamp) && exists i, j int :: {snapshots[i].Signers[j]} IsFreshIdx(snapshots, old(CkVal(*txn, nodeId)), round, i) && 0 <= j && j < len(snapshots[i].Signers) && kvval(snapshots[i].Signers[j]) == keyhid(k)
 //@   ensures [lead-frame] forall k mathint :: {badger.kvget(*txn, k)} keykind(k) == 16 && (len(snapshots) == 0 || k != LeadKeyId(kvval(nodeId), DayOf(snapshots[0].Timestamp))) ==> badger.kvget(*txn, k) == old(badger.kvget(*txn, k))
 //@   loop 0 invariant [set] forall h crypto.Hash :: {has(osm, h)} {CkHas(CkVal(*txn, nodeId), h)} InSet(osm, h) <==> Seen(CkVal(*txn, nodeId), h)
 //@   loop 0 invariant [works] WorksOK(snapshots)
 //@   loop 0 invariant [unfold] CountFresh(snapshots, CkVal(*txn, nodeId), rangeindex + 1) == CountFresh(snapshots, CkVal(*txn, nodeId), rangeindex) + (rangeindex >= 0 && !Seen(CkVal(*txn, nodeId), snapshots[rangeindex].Hash) ? 1 : 0)
 //@   loop 0 invariant [count] len(fresh) == CountFresh(snapshots, CkVal(*txn, nodeId), rangeindex + 1) && (cap(fresh) == 0 || fresh(fresh)) && filter != nil && filter != osm
-//@   loop 0 invariant [elems] forall m int :: {fresh[m]} 0 <= m && m < len(fresh) ==> exists j int :: {snapshots[j]} 0 <= j && j <= rangeindex && fresh[m] == snapshots[j]
+//@   loop 0 invariant [elems] forall m int :: {fresh[m]} 0 <= m && m < len(fresh) ==> exists j int :: {snapshots[j]} 0 <= j && j <= rangeindex && fresh[m] == snapshots[j] && !Seen(CkVal(*txn, nodeId), snapshots[j].Hash)
 //@   hint at "for id := range osm {" [count-done] len(fresh) == CountFresh(snapshots, CkVal(*txn, nodeId), len(snapshots))
 //@   hint at "err = graphWriteWorkOffset(txn, offKey, round, snapshots)" [off] off == OffOf(old(CkVal(*txn, nodeId)))
 //@   hint at "err = graphWriteWorkOffset(txn, offKey, round, snapshots)" [n-fresh-same] round == off ==> len(fresh) == CountFresh(snapshots, old(CkVal(*txn, nodeId)), len(snapshots))
 //@   hint at "err = graphWriteWorkOffset(txn, offKey, round, snapshots)" [n-fresh-next] round != off ==> len(fresh) == len(snapshots)
-//@   hint at "err = graphWriteWorkOffset(txn, offKey, round, snapshots)" [fresh-elems] forall m int :: {fresh[m]} 0 <= m && m < len(fresh) ==> exists j int :: {snapshots[j]} 0 <= j && j < len(snapshots) && fresh[m] == snapshots[j]
+//@   hint at "err = graphWriteWorkOffset(txn, offKey, round, snapshots)" [fresh-elems] forall m int :: {fresh[m]} 0 <= m && m < len(fresh) ==> exists j int :: {snapshots[j]} IsFreshIdx(snapshots, old(CkVal(*txn, nodeId)), round, j) && fresh[m] == snapshots[j]
 //@   hint at "err = graphWriteWorkOffset(txn, offKey, round, snapshots)" [only-snap] forall k mathint :: {badger.kvget(*txn, k)} keykind(k) != 17 ==> badger.kvget(*txn, k) == old(badger.kvget(*txn, k))
 //@   hint at "for ni, wn := range wm {" [day] day == DayOf(snapshots[0].Timestamp) && len(snapshots) > 0
 //@   hint at "for ni, wn := range wm {" [own-count] wm != nil && has(wm, nodeId) ==> wm[nodeId] == NFresh(snapshots, old(CkVal(*txn, nodeId)), round)
+//@   -- every key of the per-signer tally wm is a signer of a FRESH snapshot
+//@   loop 2 invariant [keys] forall h crypto.Hash :: {has(wm, h)} has(wm, h) ==> exists m, j int :: {fresh[m].Signers[j]} 0 <= m && m <= rangeindex && 0 <= j && j < len(fresh[m].Signers) && fresh[m].Signers[j] == h
+//@   loop 3 invariant [keys] forall h crypto.Hash :: {has(wm, h)} has(wm, h) ==> exists m, j int :: {fresh[m].Signers[j]} 0 <= m && 0 <= j && j < len(fresh[m].Signers) && fresh[m].Signers[j] == h &&
+//@       (m <= rangeindex_2 || (m == rangeindex_2 + 1 && j <= rangeindex))
+//@   -- a sign counter changes only for a key of wm, on the round's day
+//@   loop 4 invariant [sign-written] forall k mathint :: {badger.kvget(*txn, k)} keykind(k) == 15 && badger.kvget(*txn, k) != old(badger.kvget(*txn, k)) ==> exists ni crypto.Hash :: {has(wm, ni)} has(wm, ni) && k == SignKeyId(kvval(ni), day)
 //@   loop 4 invariant [ck] CkVal(*txn, nodeId) != 0 && CkRound(CkVal(*txn, nodeId)) == round &&
 //@       forall h crypto.Hash :: {CkHas(CkVal(*txn, nodeId), h)} CkHas(CkVal(*txn, nodeId), h) <==> (exists i int :: {snapshots[i]} 0 <= i && i < len(snapshots) && snapshots[i].Hash == h)
 //@   loop 4 invariant [frame4] forall k mathint :: {badger.kvget(*txn, k)} keykind(k) != 15 && keykind(k) != 17 && k != OffKeyId(kvval(nodeId)) ==> badger.kvget(*txn, k) == old(badger.kvget(*txn, k))
